@@ -1,10 +1,14 @@
 """C18 - all ways of loading a time zone give the same zone (narrow)."""
 from ..e5 import run_e5
-from ..rules_tz import find_key, parse_order, fold_agree
+from ..rules_tz import find_key, parse_order, fold_agree, special_names
 
 
 def run(ctx, rep):
     fold_agree(rep, ctx.prog("Q"))
+    # the bundled back-end is compiled only with tzdb-bundle-always (configuration T3): analysed in both tiers
+    special_names(rep, [("Q", ctx.prog("Q")), ("T3", ctx.prog("T3"))])
+    if "T3" not in rep.configs:
+        rep.configs.append("T3")
     prog = ctx.prog("Q")
     rep.notes.append("Does not decide behavioural equivalence of back-ends, slim vs fat, name case folding, POSIX Display<->parse.")
     run_e5(rep)
